@@ -375,17 +375,16 @@ class Visitor(ast.NodeVisitor):
             if recomputed_format_spec is PLACEHOLDER or recomputed_value is PLACEHOLDER:
                 return PLACEHOLDER
 
-            fmt = ["{"]
             # See https://docs.python.org/3/library/ast.html#ast.FormattedValue for these
             # constants
             if node.conversion == -1:
-                pass
+                converted_value = recomputed_value
             elif node.conversion == 115:
-                fmt.append("!s")
+                converted_value = str(recomputed_value)
             elif node.conversion == 114:
-                fmt.append("!r")
+                converted_value = repr(recomputed_value)
             elif node.conversion == 97:
-                fmt.append("!a")
+                converted_value = ascii(recomputed_value)
             else:
                 raise NotImplementedError(
                     "Unhandled conversion of a formatted value node {!r}: {}".format(
@@ -393,12 +392,14 @@ class Visitor(ast.NodeVisitor):
                     )
                 )
 
-            if recomputed_format_spec is not None:
-                fmt.append(f":{recomputed_format_spec}")
+            # The conversion and the format specification are applied directly, as Python does.
+            # A template for ``str.format`` must not be assembled from them: the braces in the value of
+            # a nested field of the format specification (*e.g.*, ``f"{x:{fill}>5}"`` with ``fill == "{"``)
+            # would be parsed as replacement fields.
+            if recomputed_format_spec is None:
+                return format(converted_value, "")
 
-            fmt.append("}")
-
-            return "".join(fmt).format(recomputed_value)
+            return format(converted_value, recomputed_format_spec)
 
         def visit_JoinedStr(self, node: ast.JoinedStr) -> Union[str, Placeholder]:
             """Visit the values and concatenate them."""
